@@ -10,13 +10,33 @@ from depccg.tree import ScoredTree, Tree
 
 PROP = 'C18'
 MAX_DEPTH = 3
+ALL_PAIRS = ('long', 'nbest_long')
 
 
 def snap_tree(t):
     if t.is_leaf:
         tok = t.children[0]
         return ('L', K.key(t.cat), t.op_string, t.op_symbol, bool(t.head_is_left), type(tok).__name__, tuple(tok.items()))
-    return ('T', K.key(t.cat), t.op_string, t.op_symbol, bool(t.head_is_left), len(t.children)) + tuple(snap_tree(c) for c in t.children)
+    return ('T', K.key(t.cat), t.op_string, t.op_symbol, bool(t.head_is_left), len(t.children), None) + tuple(snap_tree(c) for c in t.children)
+
+
+def derived_of(nbest):
+    """what the public accessors compute from every node (length, words), children before parents. Caches behind them are state too, but
+    asking is not free of side effects when such a cache exists, so this is only asked after a rendering, never before one."""
+    out = []
+
+    def rec(t):
+        if not t.is_leaf:
+            for c in t.children:
+                rec(c)
+        try:
+            out.append((len(t), t.word))
+        except Exception as e:
+            out.append(('raises', type(e).__name__))
+    for lst in nbest:
+        for stree in lst:
+            rec(stree.tree)
+    return out
 
 
 def snapshot(nbest):
@@ -34,8 +54,9 @@ def explore(st, nbest0, lang, formats, base):
     """BFS over format sequences applied to the same objects"""
     TP.set_lang(lang)
     pristine = copy.deepcopy(nbest0)
-    s0 = snapshot(pristine)
     fresh = {f: out_of(copy.deepcopy(pristine), f) for f in formats}
+    s0 = snapshot(pristine)
+    derived0 = derived_of(copy.deepcopy(pristine))
     seen = {s0: ()}
     frontier = [()]
     states, transitions = 1, 0
@@ -57,6 +78,8 @@ def explore(st, nbest0, lang, formats, base):
                 if o1 != fresh[f]:
                     st.violation(f'history_dependent/{f}/after:{",".join(seq) or "-"}', f'{f} after {list(seq)} gives {str(o1)[:160]!r}; on a fresh copy it gives {str(fresh[f])[:160]!r}',
                                  fmt=f, history=list(seq), **base)
+                if after == before and derived_of(obj) != derived0:
+                    st.violation(f'mutates_derived/{f}', f'after rendering {list(seq) + [f]} the accessors of the result objects (len, word) answer differently than on a fresh copy', fmt=f, history=list(seq), **base)
                 if after != before:
                     closed_at_1 = False
                     st.violation(f'mutates/{f}', f'rendering {f} changed the result objects: {diff_snap(before, after)}', fmt=f, history=list(seq), **base)
@@ -65,6 +88,8 @@ def explore(st, nbest0, lang, formats, base):
                         states += 1
                         nxt.append(seq + (f,))
                 else:
+                    if depth == 1 and base.get('result_kind') in ALL_PAIRS:
+                        nxt.append(seq + (f,))       # every ordered pair of formats, whether or not a state change was visible
                     o2 = out_of(obj, f)
                     st.count('renderings')
                     if o2 != o1:
@@ -87,7 +112,7 @@ def diff_snap(a, b):
                     if x[0] == 'L':
                         out.append(x[6])
                     else:
-                        for c in x[6:]:
+                        for c in x[7:]:
                             rec(c)
                 rec(tr)
         return out
@@ -120,6 +145,16 @@ def results_for(lang, tier):
             share_tokens(tc, td)
             out.append(('nbest_unsorted', a, [[ScoredTree(tc, -3.5), ScoredTree(td, -0.25)]]))
             out.append(('batch', a, [[ScoredTree(ta, -1.0)], [ScoredTree(TP.make_tree(b, ['(', 'x&y', "it's"][:n], lang), -2.0)]]))
+    # longer sentences (6 words left- and right-branching, the 11..13-word shapes): every ordered pair of formats is explored on them
+    longs = T.long_trees(lang, sizes=(6,)) + T.long_trees(lang, sizes=(5, 7, 8)) [:: 2 if tier == 'quick' else 1] + T.long_trees(lang)[:: 2 if tier == 'quick' else 1]
+    for t in longs:
+        ws = [f'w{i}' for i in range(T.n_leaves(t))]
+        out.append(('long', t, [[ScoredTree(TP.make_tree(t, ws, lang), -1.0)]]))
+    if len(longs) >= 2 and T.n_leaves(longs[0]) == T.n_leaves(longs[1]):
+        ws = [f'w{i}' for i in range(T.n_leaves(longs[0]))]
+        ta, tb = TP.make_tree(longs[0], ws, lang), TP.make_tree(longs[1], ws, lang)
+        share_tokens(ta, tb)
+        out.append(('nbest_long', longs[0], [[ScoredTree(ta, -1.0), ScoredTree(tb, -2.0)]]))
     failed = [ScoredTree(tree=Tree.make_terminal('FAILED', K.P('NP')), score=-float('inf'))]
     out.append(('failed', ('L', 'NP', 0), [failed]))
     if lic:
